@@ -2550,6 +2550,11 @@ class Format(_FormatLike):
                 obj = get_field(field_name)
                 if conversion == "v":
                     obj = Value.cast(obj)
+                elif conversion is not None and isinstance(obj, (Value, ValueCastable, _FormatLike)):
+                    # `str()`, `repr()` or `ascii()` would be applied to the object that describes
+                    # the value, and the description, not the value, would be printed.
+                    raise ValueError(f"Conversion '!{conversion}' cannot be used with {obj!r}, which "
+                                     f"is formatted when the design runs")
                 else:
                     obj = fmtter.convert_field(obj, conversion)
                 format_spec = subformat(format_spec)
